@@ -144,6 +144,19 @@ Definition rule_okb (r : frule) : bool :=
   | PFloatAny, PFloatAny, FAFloat o => float_rule (fr_op r) o (fr_g r)
   | _, _, _ => false
   end.
+(* the eight identity rewrites of fold_binary's second pass (the known finding of C10) *)
+Definition known_identity_rule (r : frule) : bool :=
+  match fr_op r, fr_l r, fr_r r, fr_g r, fr_act r with
+  | Mul, PAny, PIntLit 0, FGNone, FAConstInt 0        (* x * 0 -> 0 *)
+  | Mul, PIntLit 0, PAny, FGNone, FAConstInt 0        (* 0 * x -> 0 *)
+  | Mul, PAny, PIntLit 1, FGNone, FALeft              (* x * 1 -> x *)
+  | Mul, PIntLit 1, PAny, FGNone, FARight             (* 1 * x -> x *)
+  | Add, PAny, PIntLit 0, FGNone, FALeft              (* x + 0 -> x *)
+  | Add, PIntLit 0, PAny, FGNone, FARight             (* 0 + x -> x *)
+  | Sub, PAny, PIntLit 0, FGNone, FALeft              (* x - 0 -> x *)
+  | Div, PAny, PIntLit 1, FGNone, FALeft => true      (* x / 1 -> x *)
+  | _, _, _, _, _ => false
+  end.
 Definition urule_okb (r : unop * lpat * uaction) : bool :=
   match r with
   | (Neg, PIntAny, UAInt Checked) => true
@@ -973,9 +986,10 @@ Fixpoint fold (e : expr) : option expr :=
   end.
 
 (* ------------------------------------------- known-finding class of C10 *)
-(* rule_fires: while folding the node `l op r` (children already folded), is an arm outside the
-   whitelist rule_okb selected?  Mirrors run_phases: in each phase the first matching arm is
-   selected; a whitelisted arm that produces nothing lets the next phase run. *)
+(* rule_fires: while folding the node `l op r` (children already folded), is one of the eight
+   known identity rewrites selected?  Mirrors run_phases: in each phase the first matching arm is
+   selected; a whitelisted arm that produces nothing lets the next phase run.  (Every rule of the
+   regenerated table must be whitelisted or one of the eight: ProofsC10.fold_phases_classified.) *)
 Fixpoint select_rule (rules : list frule) (op : binop) (l r : expr) : option frule :=
   match rules with
   | [] => None
@@ -993,14 +1007,13 @@ Fixpoint rule_fires (phases : list (list frule)) (op : binop) (l r : expr) : boo
       | Some ru =>
           if rule_okb ru
           then match act_apply (fr_act ru) l r with NoVal => rule_fires rest op l r | _ => false end
-          else true
+          else known_identity_rule ru
       end
   end.
 
-(* identity_fires e: somewhere in e the folder applies a rule outside the whitelist -- with the
-   current optimize.rs exactly: a type-blind identity rewrite fires (`x * 0`, `0 * x`, `x * 1`,
-   `1 * x`, `x + 0`, `0 + x`, `x - 0`, `x / 1` with x not an integer literal, after the
-   sub-expressions have been folded) *)
+(* identity_fires e: somewhere in e the folder applies one of the eight type-blind identity
+   rewrites (`x * 0`, `0 * x`, `x * 1`, `1 * x`, `x + 0`, `0 + x`, `x - 0`, `x / 1` with x not an
+   integer literal, after the sub-expressions have been folded) *)
 Fixpoint identity_fires (e : expr) : bool :=
   match e with
   | EBin op l r =>
